@@ -52,12 +52,35 @@ type gen struct {
 
 func (g *gen) feat(f string) { g.spec.Features = append(g.spec.Features, f) }
 
+// words no single generated font covers together with ASCII: Greek, Cyrillic, arrows, box drawing, math,
+// dingbats (DejaVu has them, Ahem and weasyprint.otf do not) — font fallback splits the line into several runs
+var foreignWords = []string{"αβγ", "жзи", "→⇒↔", "┌─┐", "∑∞≠", "✓✗", "Ωмега", "x→y", "א"}
+
+var fontLists = []string{`Ahem, "DejaVu Sans"`, `weasyprint, "DejaVu Serif"`, `Ahem, "DejaVu Sans Mono"`, `"DejaVu Sans"`,
+	`"DejaVu Serif", Ahem`, `Ahem, weasyprint, "DejaVu Sans"`, `monospace`, `"DejaVu Sans Mono", "DejaVu Serif"`, `Ahem`}
+
+func (g *gen) mixedWord() string { return foreignWords[g.r.Intn(len(foreignWords))] }
+
+func (g *gen) fontFamily() string {
+	g.feat("font-family")
+	return "font-family:" + fontLists[g.r.Intn(len(fontLists))] + ";"
+}
+
 func (g *gen) text() string {
 	g.nText++
 	n := g.r.Range(1, 3)
 	var ws []string
 	for i := 0; i < n; i++ {
 		ws = append(ws, fmt.Sprintf("w%d%c", g.nText, 'a'+i))
+		if g.r.P(1, 4) {
+			// several scripts in one word / one line: more than one font per DrawText
+			g.feat("mixed-script-text")
+			if g.r.Bool() {
+				ws[len(ws)-1] += g.mixedWord()
+			} else {
+				ws = append(ws, g.mixedWord())
+			}
+		}
 	}
 	return strings.Join(ws, " ")
 }
@@ -367,7 +390,12 @@ func (g *gen) svgElem(depth int, hidden bool) string {
 		s = fmt.Sprintf(`<svg x="%d" y="%d" width="%d" height="%d"%s>%s</svg>`, n(20), n(20), n(30), n(30), attrs, g.svgElem(depth+1, hidden))
 	case 9:
 		kind = "text"
-		s = fmt.Sprintf(`<text x="%d" y="%d" font-size="%d"%s%s>s%d<tspan dx="2">s%db</tspan></text>`, n(30), 10+n(20), n(14), rng.Pick(g.r, "", ` text-anchor="middle"`, ` text-anchor="end"`), attrs, g.nSvg, g.nSvg)
+		ff := ""
+		if g.r.P(1, 2) {
+			ff = fmt.Sprintf(` font-family='%s'`, strings.ReplaceAll(fontLists[g.r.Intn(len(fontLists))], `"`, ""))
+		}
+		s = fmt.Sprintf(`<text x="%d" y="%d" font-size="%d"%s%s%s>s%d%s<tspan dx="2">s%db %s</tspan></text>`, n(30), 10+n(20), n(14), rng.Pick(g.r, "", ` text-anchor="middle"`, ` text-anchor="end"`), ff, attrs, g.nSvg,
+			rng.Pick(g.r, "", g.mixedWord()), g.nSvg, rng.Pick(g.r, "", g.mixedWord()))
 	case 10:
 		kind = "use"
 		s = fmt.Sprintf(`<use href="#%s" x="%d" y="%d"%s/>`, rng.Pick(g.r, "sym", "nothere", "cp"), n(10), n(10), attrs)
@@ -447,6 +475,14 @@ func (g *gen) inlineContent() string {
 		case 3, 4, 5:
 			parts = append(parts, g.link())
 		case 6:
+			if g.r.Bool() {
+				// faces switching inside a line
+				g.feat("face-switch")
+				tag := rng.Pick(g.r, "b", "i", "em", "strong", "code")
+				parts = append(parts, fmt.Sprintf(`<%s>%s</%s> <span style="%s%s">%s</span>`, tag, g.text(), tag,
+					g.fontFamily(), rng.Pick(g.r, "", "font-weight:bold;", "font-style:italic;", "font-weight:bold;font-style:oblique;", "font-variant:small-caps;"), g.text()))
+				break
+			}
 			parts = append(parts, fmt.Sprintf(`<span%s style="%s%s">%s</span>`, g.maybeID(), g.textDeco(), rng.Pick(g.r, "", g.background(), g.border(), "display:inline-block;"+g.boxStyle()), g.text()))
 		case 7:
 			g.feat("img")
@@ -604,7 +640,7 @@ func genDoc(r *rng.R) *docSpec {
 		fmt.Fprintf(&css, ";%s", strings.TrimSuffix(g.background(), ";"))
 	}
 	if r.P(1, 8) {
-		fmt.Fprintf(&css, ";@top-center{content:'hdr' counter(page);%s}", g.border())
+		fmt.Fprintf(&css, ";@top-center{content:'hdr%s ' counter(page);%s%s}", rng.Pick(r, "", " "+g.mixedWord()), rng.Pick(r, "", g.fontFamily()), g.border())
 		g.feat("margin-box")
 	}
 	css.WriteString("}")
@@ -613,6 +649,12 @@ func genDoc(r *rng.R) *docSpec {
 		g.feat("page-first")
 	}
 	css.WriteString("body{margin:0;font-size:10px}")
+	if r.P(1, 2) {
+		fmt.Fprintf(&css, "body{%s}", g.fontFamily())
+	}
+	if r.P(1, 4) {
+		fmt.Fprintf(&css, "h1,h2,h3,a{%s}", g.fontFamily())
+	}
 	if r.P(1, 8) {
 		fmt.Fprintf(&css, "html{%s}", g.background())
 	}
